@@ -203,14 +203,16 @@ def spec_request(case, impl):
     if t[0] == "C":
         rf, wf = kv(facts, "rfaults"), kv(facts, "wfaults")
         faults = rf.split(",")[0] if rf != "-" else (wf.split(",")[0] if wf != "-" else "-")
-        return "S copy -1 res=%s faults=%s allok=%s dec=%s ref=%s" % (res, faults, kv(facts, "allok"), kv(facts, "dec"), kv(facts, "ref"))
+        return "S copy -1 res=%s faults=%s allok=%s dec=%s ref=%s eofseen=%s" % (
+            res, faults, kv(facts, "allok"), kv(facts, "dec"), kv(facts, "ref"), kv(facts, "eofseen"))
     if t[0] == "A":
         complete = kv(facts, "complete") == "1" and kv(facts, "prefix") == "1"
         return "S write_all -1 res=%s faults=%s allok=%s dec=%s ref=-" % (
             res, kv(facts, "faults"), "1" if res == "k" else "0", "ok" if complete else "bad")
     name = "reader" if t[0] == "R" else "writer"
-    return "S %s %d res=%s faults=%s allok=%s dec=%s ref=%s" % (
-        name, close_index(case), res, kv(facts, "faults"), kv(facts, "allok"), kv(facts, "dec"), kv(facts, "ref"))
+    return "S %s %d res=%s faults=%s allok=%s dec=%s ref=%s eofseen=%s" % (
+        name, close_index(case), res, kv(facts, "faults"), kv(facts, "allok"), kv(facts, "dec"), kv(facts, "ref"),
+        kv(facts, "eofseen") if name == "reader" else "1")
 
 
 def case_dict(case, impl, verdict, prof):
@@ -249,7 +251,7 @@ def case_dict(case, impl, verdict, prof):
          "quality": int(t[1]) if adapter != "write_all" else -1,
          "kind": kind, "call": call, "op": op,
          "n_write_zero_errors_before": before.count("eWZ"), "n_invalid_data_errors_before": before.count("eINV"),
-         "decodes": kv(facts, "dec") == "ok",
+         "decodes": kv(facts, "dec") == "ok", "input_exhausted": kv(facts, "eofseen") != "0",
          "stored_errors_left": kv(obs, "left") if adapter == "write_all" else "-"}
     return d
 
